@@ -22,7 +22,7 @@ ASSUMPTIONS = ["gateway models in gateways/sim.py (reports in bus order, one out
                "daliserver: status 0 none, 1 answer, 255 garbled; ATX hat: 'N' none, 'Jhh' answer"]
 EXHAUSTIVE = {"quick": False, "thorough": False}
 REQUIRED_ANCHORS = {"all": ["sends_checked", "silent_outcomes", "value_outcomes", "error_outcomes", "multi_caller_runs",
-                            "daliserver_checked", "atx_checked", "drivers_tridonic", "drivers_hasseb", "drivers_luba", "drivers_sci"]}
+                            "daliserver_checked", "atx_checked", "dfs_runs", "drivers_tridonic", "drivers_hasseb", "drivers_luba", "drivers_sci"]}
 SHARD_TIMEOUT = {"quick": 600, "thorough": 3000}
 
 
@@ -34,7 +34,30 @@ def plan(tier, seed):
         for p in range(parts):
             sh.append({"kind": "async", "driver": d, "part": p, "n": n // parts})
     sh.append({"kind": "sync"})
+    # bounded-exhaustive walk over the first decisions (caller offsets, gateway delays / coalescing) of fixed scenarios
+    for d in simlib.DRIVERS:
+        for sc in range(2 if tier == "quick" else 6):
+            sh.append({"kind": "dfs", "driver": d, "scenario": sc, "depth": 5 if tier == "quick" else 8,
+                       "budget": 150 if tier == "quick" else 6000})
     return sh
+
+
+def dfs_shard(desc, seed, res):
+    driver = desc["driver"]
+    stack = [[]]
+    runs = 0
+    while stack and runs < desc["budget"]:
+        prefix = stack.pop()
+        forced = {"prefix": prefix, "scenario": desc["scenario"]}
+        run_async_case(driver, seed, "dfs", runs, res, forced=forced)
+        runs += 1
+        res.hit("dfs_runs")
+        log = forced.get("log") or []
+        for d in range(len(prefix), min(len(log), desc["depth"])):
+            for alt in range(1, log[d][1]):
+                stack.append([x[2] for x in log[:d]] + [alt])
+    res.extra[f"dfs_exhausted_{driver}_{desc['scenario']}"] = int(not stack)
+    res.add("dfs_prefixes_left", len(stack))
 
 
 def expected_raw(driver, ans):
@@ -45,10 +68,11 @@ def expected_raw(driver, ans):
     return ("error", None) if driver in ("tridonic", "hasseb") else ("none", None)
 
 
-def run_async_case(driver, seed, part, i, res):
+def run_async_case(driver, seed, part, i, res, forced=None):
     from dali import frame as F
-    r = rng(seed, "C16", driver, part, i)
-    n_callers = r.choice([1, 1, 2, 3])
+    # forced (bounded-exhaustive walk): the scenario is fixed per (driver, scenario number); only the Picker's decisions vary
+    r = rng(seed, "C16", driver, part, i) if forced is None else rng(seed, "C16", driver, "dfs-scenario", forced["scenario"])
+    n_callers = r.choice([1, 1, 2, 3]) if forced is None else 2 + forced["scenario"] % 2
     kinds = simlib.KINDS[driver]
     plans = []
     for c in range(n_callers):
@@ -63,18 +87,21 @@ def run_async_case(driver, seed, part, i, res):
             return None
         key = (width, value)
         if key not in outcome:
-            c = r.random()
-            outcome[key] = None if c < 0.3 else (("ok", r.choice([0, 255, r.getrandbits(8)])) if c < 0.8 else ("collision", r.getrandbits(8)))
+            ra = rng(seed, "C16", "answer", driver, part, i if forced is None else forced["scenario"], width, value)
+            c = ra.random()
+            outcome[key] = None if c < 0.3 else (("ok", ra.choice([0, 255, ra.getrandbits(8)])) if c < 0.8 else ("collision", ra.getrandbits(8)))
         return outcome[key]
 
-    picker = simlib.Picker(r)
+    picker = simlib.Picker(r) if forced is None else simlib.Picker(r, prefix=forced["prefix"], default="first")
+    if forced is not None:
+        forced["log"] = picker.log
     sim = simlib.Sim(driver, picker, answer=answer)
     results = {}
     windows = {}
 
     gaps = [[r.choice([0, 0, 0.06, 0.25]) for _ in cmds] for cmds in plans]
     foreign = []
-    if driver != "hasseb" and r.random() < 0.6:
+    if driver != "hasseb" and r.random() < (0.6 if forced is None else 0.0):
         # traffic of another master while the driver is idle or busy: query + answer pairs from addresses 48..63
         for j in range(r.randint(1, 4)):
             v = ((48 + j) * 2 + 1) * 256 + r.choice([0xA0, 0x90, 0x99])
@@ -96,7 +123,9 @@ def run_async_case(driver, seed, part, i, res):
         await sim.connect()
         for (dly, w_, v_, a_) in foreign:
             sim.dev.foreign(dly, w_, v_, a_)
-        tasks = [asyncio.ensure_future(caller(c, cmds, r.choice([0, 0.001, 0.02, 0.05]))) for c, cmds in enumerate(plans)]
+        starts = [r.choice([0, 0.001, 0.02, 0.05]) if forced is None else picker.pick(f"start{c}", [0, 0.001, 0.02, 0.05])
+                  for c in range(len(plans))]
+        tasks = [asyncio.ensure_future(caller(c, cmds, starts[c])) for c, cmds in enumerate(plans)]
         await asyncio.gather(*tasks)
         await asyncio.sleep(1.0)      # let the gateway finish transmitting what it has accepted
         return True
@@ -111,6 +140,8 @@ def run_async_case(driver, seed, part, i, res):
     wit = {"driver": driver, "seed": seed, "part": part, "case": i, "callers": [[str(c) for c in cmds] for cmds in plans],
            "wire": [(hex(w["value"]), w["answer"], w["origin"], round(w["t"], 4)) for w in wire][:40], "picks": picker.log[:60],
            "foreign": foreign}
+    if forced is not None:
+        wit["forced"] = {"prefix": list(forced["prefix"]), "scenario": forced["scenario"]}
     try:
         if simlib.detached(out):
             res.inconclusive.append('harness detached: ' + str(out))
@@ -404,12 +435,18 @@ def run_shard(desc, tier, seed):
         for w in desc["replay"]["witnesses"]:
             x = w["witness"]
             if "case" in x:
-                run_async_case(x["driver"], x["seed"], x["part"], x["case"], res)
+                run_async_case(x["driver"], x["seed"], x["part"], x["case"], res,
+                               forced=dict(x["forced"]) if x.get("forced") else None)
             else:
                 run_daliserver(seed, res)
                 run_atx(seed, res)
         return res
-    if desc["kind"] == "async":
+    if desc["kind"] == "dfs":
+        try:
+            dfs_shard(desc, seed, res)
+        except Exception as e:
+            res.inconclusive.append("harness error (dfs): " + short_tb(e))
+    elif desc["kind"] == "async":
         for i in range(desc["n"]):
             try:
                 run_async_case(desc["driver"], seed, desc["part"], i, res)
